@@ -26,8 +26,8 @@ def internalSchema : List (String × List (String × String × String)) := [
   ,("SyncCollectionQuery", [("XMLName", "xml.Name", "DAV: sync-collection"), ("SyncToken", "string", "sync-token"), ("Limit", "*Limit", "limit,omitempty"), ("SyncLevel", "string", "sync-level"), ("Prop", "*Prop", "prop")])
 ]
 
-/-- status-code literals per source file, sorted -/
-def internalStatusByFile : List (String × List Nat) := [("client.go", [207]), ("elements.go", [200, 200, 404, 404, 500]), ("internal.go", [404, 500]), ("server.go", [200, 200, 200, 201, 201, 204, 204, 204, 207, 400, 400, 400, 400, 400, 400, 400, 400, 400, 400, 400, 404, 405, 500])]
+/-- the set of status codes named in each source file, sorted -/
+def internalStatusByFile : List (String × List Nat) := [("client.go", [207]), ("elements.go", [200, 404, 500]), ("internal.go", [404, 500]), ("server.go", [200, 201, 204, 207, 400, 404, 405, 500])]
 
 /-- explicit panic() calls per source file -/
 def internalPanicsByFile : List (String × Nat) := [("internal.go", 1), ("xml.go", 2)]
@@ -50,8 +50,8 @@ def webdavSchema : List (String × List (String × String × String)) := [
   ,("principalURL", [("XMLName", "xml.Name", "DAV: principal-URL"), ("Href", "internal.Href", "href")])
 ]
 
-/-- status-code literals per source file, sorted -/
-def webdavStatusByFile : List (String × List Nat) := [("fs_local.go", [400, 400, 400, 400, 403, 403, 403, 404, 405, 405, 409, 412, 412, 412, 412, 503]), ("server.go", [201, 204, 204, 403, 405, 405, 409, 412, 412, 415, 500])]
+/-- the set of status codes named in each source file, sorted -/
+def webdavStatusByFile : List (String × List Nat) := [("fs_local.go", [400, 403, 404, 405, 409, 412, 503]), ("server.go", [201, 204, 403, 405, 409, 412, 415, 500])]
 
 /-- explicit panic() calls per source file -/
 def webdavPanicsByFile : List (String × Nat) := []
@@ -88,8 +88,8 @@ def caldavSchema : List (String × List (String × String × String)) := [
   ,("timeRange", [("XMLName", "xml.Name", "urn:ietf:params:xml:ns:caldav time-range"), ("Start", "dateWithUTCTime", "start,attr,omitempty"), ("End", "dateWithUTCTime", "end,attr,omitempty")])
 ]
 
-/-- status-code literals per source file, sorted -/
-def caldavStatusByFile : List (String × List Nat) := [("server.go", [201, 308, 400, 400, 400, 400, 400, 400, 400, 400, 400, 400, 400, 400, 403, 404, 404, 409, 500, 500, 501, 501, 501])]
+/-- the set of status codes named in each source file, sorted -/
+def caldavStatusByFile : List (String × List Nat) := [("server.go", [201, 308, 400, 403, 404, 409, 500, 501])]
 
 /-- explicit panic() calls per source file -/
 def caldavPanicsByFile : List (String × Nat) := [("match.go", 1)]
@@ -124,8 +124,8 @@ def carddavSchema : List (String × List (String × String × String)) := [
   ,("textMatch", [("XMLName", "xml.Name", "urn:ietf:params:xml:ns:carddav text-match"), ("Text", "string", ",chardata"), ("Collation", "string", "collation,attr,omitempty"), ("NegateCondition", "negateCondition", "negate-condition,attr,omitempty"), ("MatchType", "matchType", "match-type,attr,omitempty")])
 ]
 
-/-- status-code literals per source file, sorted -/
-def carddavStatusByFile : List (String × List Nat) := [("client.go", [404]), ("server.go", [201, 308, 400, 400, 400, 400, 400, 400, 400, 400, 400, 400, 403, 403, 404, 404, 405, 405, 409, 500, 500, 501, 501, 501, 501])]
+/-- the set of status codes named in each source file, sorted -/
+def carddavStatusByFile : List (String × List Nat) := [("client.go", [404]), ("server.go", [201, 308, 400, 403, 404, 405, 409, 500, 501])]
 
 /-- explicit panic() calls per source file -/
 def carddavPanicsByFile : List (String × Nat) := [("match.go", 1)]
